@@ -6,6 +6,7 @@ import common as c
 
 WATCHDOG_S = 120          # per input, as the property states
 BATCH = 500
+MAX_HANGS = 3             # per input set: stop feeding after this many confirmed hangs (the check has failed by then)
 
 
 def _text(l):
@@ -86,6 +87,11 @@ def run_inputs(ctx, labels):
                                  "allowed": [{"ok": True}], "actual": {"ok": False, "what": "child exit status %s (abort / stack overflow)" % p.returncode}})
         stats["inputs"] += max(begun, 0) + 1
         i += max(begun, 0) + 1
+        if stats["hangs"] >= MAX_HANGS:
+            # every confirmed hang costs five minutes; the verdict is settled, the remaining inputs are not run
+            stats["not_run_after_hangs"] = stats.get("not_run_after_hangs", 0) + (n - i)
+            c.log("  %d inputs each left without an answer for %d s: the remaining %d inputs of this set are not run" % (stats["hangs"], WATCHDOG_S, n - i))
+            break
     return stats
 
 
@@ -131,13 +137,15 @@ def run(ctx):
         for k in ("panics", "aborts", "hangs"):
             st[k] += st2[k]
         st["slowest_batch_s"] = max(st["slowest_batch_s"], st2["slowest_batch_s"])
+        if st2.get("not_run_after_hangs"):
+            st["not_run_after_hangs"] = st.get("not_run_after_hangs", 0) + st2["not_run_after_hangs"]
     ctx.cov["evaluations"] = (st["inputs"] + ntr) * 10
     ctx.cov["distinct_nontrivial"] = st["inputs"] + ntr
     ctx.cov["traces_validated_against_impl"] = st["inputs"] + ntr
     ctx.cov["text_inputs"] = st
     ctx.cov["seed_texts_accepted_by"] = {" ".join(k)[:60]: v for k, v in SEED_TOKS.items()}
     bad = [" ".join(k) for k, v in SEED_TOKS.items() if not v]
-    if bad:
+    if bad and not st.get("not_run_after_hangs"):
         # a seed that no entry point accepts makes its mutations shallow: a defect of the checker, not of the code
         raise RuntimeError("seed text(s) accepted by no entry point: %r" % bad)
     ctx.cov["samples"] += [labels[0], labels[len(labels) // 2], labels[-1]]
